@@ -905,7 +905,7 @@ def run(col, configs, tier):
         guarded(col, rule_option_reach, facts)
         guarded(col, rule_punct, facts)
         guarded(col, rule_truncate, facts)
-        guarded(col, rule_binary_round, facts)
+        guarded_soft(col, rule_binary_round, facts)
         guarded(col, rule_radix_rounding, facts)
         guarded(col, rule_point_zero_counted, facts)
         guarded(col, rule_decimal_tie, facts)
